@@ -66,6 +66,8 @@ def verify_case(repo, qualname, case_index, timeout_ms=10000, want_models=True, 
                                                fn=qualname, case=case.name, detail=verdict).to_dict())
         import os as _os
         only = _os.environ.get('PYVC_ONLY')
+        n_retries = [0]       # slow queries on a correct tree are rare; many unknowns mean the code
+        #                       no longer matches its contract, and retrying each would only cost time
         for o in obls:
             if only and only not in o.name:
                 continue
@@ -80,6 +82,8 @@ def verify_case(repo, qualname, case_index, timeout_ms=10000, want_models=True, 
                 ax += dtype_axioms(with_ints=solve.uses_decl(fs_, 'val_of_int'))
             r = solve.discharge(o, timeout_ms=timeout_ms, axioms=ax, want_model=want_models)
             if r.status == 'unknown':
+                n_retries[0] += 1
+            if r.status == 'unknown' and n_retries[0] <= 4:
                 # second pass with a generous budget: a slow query must not flip the verdict when
                 # all cores are busy
                 r2 = solve.discharge(o, timeout_ms=timeout_ms * 6, axioms=ax, want_model=want_models)
